@@ -1,4 +1,5 @@
 import Rustemo.Proofs.LRSound
+import Rustemo.Proofs.LayoutRTPartial
 import Rustemo.Props.Example
 /-!
 # C02 — every successful LR parse yields a valid derivation tree of the consumed input
@@ -39,5 +40,24 @@ open Rustemo
 /-- non-vacuity: the hypotheses of `C02_tree_is_derivation` are met by a concrete run -/
 example : Cert.structural Example.env.g Example.env.t (autosOf Example.env.g Example.env.t) = true ∧
     Example.isOk (parse Example.env false 100).2 = true := by decide
+
+end Rustemo.Props.C02
+
+namespace Rustemo.Props.C02
+open Rustemo
+
+/-- **Enabling partial parsing never turns an accepted input into a rejected or differently parsed
+    one.**  Any table, any lexer the model has (string lexer with whitespace skipping or a Layout
+    rule, the adversarial user lexers), any input: if `parse` with partial parsing off returns
+    `ok r` in final context `ctx`, then with partial parsing on it returns the same `ok r` (same
+    tree with the same spans and layout, same token history) in the same final context.  (`partial_parse`
+    only changes what `next_token` answers when no token is found, `noToken`; an accepted run with
+    the flag off never got there.) -/
+theorem C02_partial_conservative (env : Env) (fuel : Nat) (ctx : Ctx) (r : ParseResult)
+    (hrun : parse env false fuel = (ctx, .ok r)) : parse env true fuel = (ctx, .ok r) :=
+  parse_partial_conservative env fuel ctx r hrun
+
+/-- non-vacuity: an accepted run with partial parsing off -/
+example : Example.isOk (parse Example.env false 100).2 = true := by decide
 
 end Rustemo.Props.C02
